@@ -99,6 +99,8 @@ func c08PeriodInterp(t *testing.T, c c08PCase) (v kit.Verdict) {
 	classes := map[string]bool{}
 	nontrivial := false
 	res := kit.Bubble(t, func() {
+		c08EnterBubble()
+		defer c08LeaveBubble()
 		store := redis.New(srv.addr)
 		var opts []limit.PeriodOption
 		if c.Align {
